@@ -50,6 +50,116 @@ func c01Judge(c schedCase, res *schedResult) error {
 		}
 	}
 	must, may := schedClosures(c, failed)
+	// rule 5b (documented exemption: "except for tasks that are also in a healthy
+	// lane (not aborted, and not waiting on aborted)"): with exactly one failure, a
+	// task that shares a lane with the failed task but is also in a lane whose
+	// other members are all single-lane, live at the instant of the failure and not
+	// waiting on anything that can be aborted, must be kept (and that lane with it).
+	if len(failed) == 1 && len(h.failSnaps) == 1 && !h.cnt.failedUndo[failed[0]] && len(h.userAborted) == 0 {
+		fidx := failed[0]
+		at := h.failSnaps[0]
+		kill := map[int]bool{}
+		for _, l := range schedLanes(c, fidx) {
+			kill[l] = true
+		}
+		live := func(s Status) bool { return s == DoStatus || s == DoingStatus || s == DoneStatus }
+		for t := 0; t < n; t++ {
+			if t == fidx || c.Tasks[t].Chg != c.Tasks[fidx].Chg || !live(at[t]) {
+				continue
+			}
+			inKill := false
+			for _, l := range schedLanes(c, t) {
+				if kill[l] {
+					inKill = true
+				}
+			}
+			if !inKill {
+				continue
+			}
+			// K / KL: everything that can be aborted assuming t itself is kept: tasks
+			// with a lane in KL or waiting on a task of K; every task of K contributes
+			// all its lanes (an aborted task kills its lanes).  Over-approximation:
+			// every other straddling task is assumed aborted.
+			inK := make([]bool, n)
+			KL := map[int]bool{}
+			inK[fidx] = true
+			for l := range kill {
+				KL[l] = true
+			}
+			for changed := true; changed; {
+				changed = false
+				for i := 0; i < n; i++ {
+					if i == t || inK[i] || c.Tasks[i].Chg != c.Tasks[fidx].Chg {
+						continue
+					}
+					hit := false
+					for _, l := range schedLanes(c, i) {
+						if KL[l] {
+							hit = true
+						}
+					}
+					for _, w := range c.Tasks[i].Waits {
+						if inK[w] {
+							hit = true
+						}
+					}
+					if hit {
+						inK[i], changed = true, true
+						for _, l := range schedLanes(c, i) {
+							KL[l] = true
+						}
+					}
+				}
+			}
+			waitsOnK := false
+			for _, w := range c.Tasks[t].Waits {
+				if inK[w] {
+					waitsOnK = true
+				}
+			}
+			if waitsOnK {
+				continue
+			}
+			for _, L := range schedLanes(c, t) {
+				if KL[L] {
+					continue
+				}
+				members, ok := 0, true
+				for m := 0; m < n; m++ {
+					if m == t || c.Tasks[m].Chg != c.Tasks[t].Chg {
+						continue
+					}
+					in := false
+					for _, x := range schedLanes(c, m) {
+						if x == L {
+							in = true
+						}
+					}
+					if !in {
+						continue
+					}
+					members++
+					if inK[m] || !live(at[m]) {
+						ok = false
+					}
+				}
+				if members == 0 || !ok {
+					continue
+				}
+				if aborted := func() bool {
+					for _, tr := range h.trans {
+						if tr.Task == t && schedIsAbortish(tr.New) {
+							return true
+						}
+					}
+					return false
+				}(); aborted {
+					return verifkit.Violatef("C01: task %d is also in healthy lane %d (its other members are live when task %d failed and nothing in it can be reached by the abort) but was aborted\n%s", t, L, fidx, res.describe())
+				}
+				break
+			}
+		}
+	}
 	aborted := make([]bool, n)
 	for _, tr := range h.trans {
 		if schedIsAbortish(tr.New) {
